@@ -5,6 +5,7 @@ import (
 	"fmt"
 	"io"
 	"math/big"
+	"os"
 	"os/exec"
 	"strings"
 	"time"
@@ -30,6 +31,10 @@ func (v Val) String() string {
 	}
 	return v.Raw
 }
+
+// SlowDump, when set, is a path prefix for dumps of queries slower than 0.5 s.
+var SlowDump string
+var slowN int
 
 type Result int
 
@@ -322,6 +327,10 @@ func (s *Solver) Check(assertions []*Term, timeoutMs int, values []*Term) (Resul
 	}
 	s.St.Queries++
 	s.St.Seconds += time.Since(t0).Seconds()
+	if SlowDump != "" && time.Since(t0).Seconds() > 0.5 {
+		slowN++
+		os.WriteFile(fmt.Sprintf("%s-%d-%d.smt2", SlowDump, os.Getpid(), slowN), []byte(fmt.Sprintf("; %.2fs %s\n", time.Since(t0).Seconds(), res)+s.ctx.Script(assertions, s.axioms, false)), 0o644)
+	}
 	switch res {
 	case Sat:
 		s.St.Sat++
